@@ -113,6 +113,7 @@ type result struct {
 	Checks     int                      `json:"checks"`
 	CleanOK    int                      `json:"clean_issued"`
 	CleanFail  int                      `json:"clean_rejected"`
+	Skipped    string                   `json:"skipped,omitempty"` // real-time script that missed its schedule (loaded machine): not judged
 	Members    []string                 `json:"members,omitempty"`
 }
 
@@ -602,8 +603,8 @@ func (w *world) scopeOf(st step) (string, pe.PresentationDefinition, error) {
 		scope = "ovr_" + st.Def
 	case has(st.D, "partial"):
 		scope = "dual"
-		if st.variant("partial", 2) == 1 {
-			owner = pe.WalletOwnerUser
+		if st.variant("partial", 2) == 1 && !has(st.D, "vcsig") && !has(st.D, "revoked") && !has(st.D, "expired") {
+			owner = pe.WalletOwnerUser // only the user definition is fulfilled (credential defects are realised on the organization credential)
 		}
 	case st.PD2:
 		scope = "s2"
@@ -833,7 +834,7 @@ func (w *world) buildPresentation(st step, flow string, nonce string, audience s
 		if err != nil {
 			return nil, err
 		}
-		e2 := created.Add(w.unit)
+		e2 := exp
 		raw2, err := w.buildVP(vpSpec{signer: w.h2, holder: w.h2, creds: []vc.VerifiableCredential{c2}, format: st.Fmt, created: created,
 			expires: &e2, nonce: &nonce, audience: &audience})
 		if err != nil {
@@ -1055,14 +1056,37 @@ func (r *runner) drift(f string, a ...interface{}) {
 	}
 }
 
-func (r *runner) waitFor(off time.Duration) {
+// Real-time scripts: every request of model time m is sent at t0 + m*unit + rtOffset.  With unit = 6 s and the node's
+// constants (validity 5 s, skew 5 s, nonce kept 10 s) every comparison the node makes has a margin of >= 1.5 s, and the
+// discrete model (VPWindow = Skew = 1, NonceTTL = 2) is exactly the abstraction of these schedules.
+const rtOffset = 2500 * time.Millisecond
+const rtTolerance = 1100 * time.Millisecond
+
+var errLate = errors.New("schedule missed")
+
+func (r *runner) waitFor() {
 	if !r.sc.Realtime {
 		return
 	}
-	target := r.t0.Add(time.Duration(r.now)*r.w.unit + off)
-	if d := time.Until(target); d > 0 {
+	if d := time.Until(r.scheduled()); d > 0 {
 		time.Sleep(d)
 	}
+}
+
+func (r *runner) scheduled() time.Time {
+	return r.t0.Add(time.Duration(r.now)*r.w.unit + rtOffset)
+}
+
+// onTime is called right before / after a request is sent
+func (r *runner) onTime(i int) error {
+	if !r.sc.Realtime {
+		return nil
+	}
+	if late := time.Since(r.scheduled()); late > rtTolerance {
+		r.res.Skipped = fmt.Sprintf("step %d was %.1fs behind its schedule", i, late.Seconds())
+		return errLate
+	}
+	return nil
 }
 
 func sortedD(d []string) []string {
@@ -1123,9 +1147,9 @@ func (r *runner) stepS2S(i int, st step, replay bool) error {
 		if sr == nil {
 			return fmt.Errorf("replay of unknown presentation %s", st.P)
 		}
-		r.waitFor(3 * time.Second)
+		r.waitFor()
 	} else {
-		r.waitFor(1 * time.Second)
+		r.waitFor()
 		n, ok := r.nonces[st.N]
 		if !ok {
 			n = nutsCrypto.GenerateNonce()
@@ -1153,8 +1177,14 @@ func (r *runner) stepS2S(i int, st step, replay bool) error {
 		r.pres[st.P] = sr
 		r.lastPres = sr
 	}
+	if err := r.onTime(i); err != nil {
+		return err
+	}
 	o, err := r.sendToken(sr)
 	if err != nil {
+		return err
+	}
+	if err := r.onTime(i); err != nil {
 		return err
 	}
 	d := sortedD(sr.st.D)
@@ -1263,6 +1293,8 @@ func (r *runner) stepAuthorize(i int, st step) error {
 	scope := "s1"
 	if st.Def != "" && st.Def != "plain" {
 		scope = "ovr_" + st.Def
+	} else if st.PD2 {
+		scope = "s2"
 	}
 	claims := map[string]interface{}{
 		"iss": w.clientDID[cs], "client_id": w.clientID(st.Client), "aud": w.asURL(), "response_type": "code",
@@ -1320,6 +1352,7 @@ func (r *runner) stepAuthzResponse(i int, st step) error {
 		return fmt.Errorf("unknown session %s", st.S)
 	}
 	st.Def = s.def
+	st.PD2 = s.scope == "s2"
 	p, err := w.buildPresentation(st, "code", s.nonce, s.audience, time.Now().Add(-200*time.Millisecond))
 	if err != nil {
 		return err
@@ -1771,12 +1804,26 @@ func (w *world) runScript(sc script) (res result) {
 		default:
 			err = fmt.Errorf("unknown action %s", st.A)
 		}
+		if err == errLate {
+			return
+		}
 		if err != nil {
 			res.Error = fmt.Sprintf("step %d (%s): %v", i, st.A, err)
 			return
 		}
 	}
 	return
+}
+
+// prewarm builds the credentials the real-time scripts use before their clocks start
+func (w *world) prewarm(t *testing.T) {
+	for _, f := range []string{"ldp", "jwt"} {
+		for _, k := range []string{"org", "emp", "vcsig", "node"} {
+			if _, err := w.cred(k, f, w.h1, 0); err != nil {
+				t.Fatalf("prewarm: %v", err)
+			}
+		}
+	}
 }
 
 // discover: which top-level members does an extended introspection answer have?
@@ -1853,16 +1900,22 @@ func TestDriver(t *testing.T) {
 	// real-time scripts sleep most of the time: run them concurrently, the others one after the other
 	var mu sync.Mutex
 	var wg sync.WaitGroup
+	nrt := 0
 	for _, sc := range in.Scripts {
 		if sc.Realtime {
+			if nrt == 0 {
+				w.prewarm(t)
+			}
+			nrt++
 			wg.Add(1)
-			go func(sc script) {
+			go func(sc script, delay time.Duration) {
 				defer wg.Done()
+				time.Sleep(delay)
 				res := w.runScript(sc)
 				mu.Lock()
 				_ = enc.Encode(res)
 				mu.Unlock()
-			}(sc)
+			}(sc, time.Duration(nrt)*60*time.Millisecond)
 		}
 	}
 	for _, sc := range in.Scripts {
